@@ -24,7 +24,7 @@ def need(key, minimum=1):
 
 # ---------------------------------------------------------------- C16
 @prop("C16", "exploration",
-      "every byte string of length 0..3 over all 256 values (thorough: + length 4 over a 40-byte class alphabet, "
+      "every byte string of length 0..3 over all 256 values and of length 4..8 over {00,ff,a,%} (thorough: + length 4 over a 40-byte class alphabet, "
       "length 4..12 over {00,ff,a,%}) through URL/Base64/hex encode -> format oracle -> in-place decode; decoder "
       "acceptance of all %hh spellings; all query-string pair lists over {a,SP,&,=,%,+,LF,0x80}^{0..2}. "
       "non-trivial = needs an escape or Base64 padding, or a non-empty pair list",
@@ -41,6 +41,8 @@ def c16(tier, seed):
         jobs.append(Job("codec-len3-%02d" % i, H, ["codec", 3, i * 256 // n, (i + 1) * 256 // n], weight=5))
     for i in range(8):
         jobs.append(Job("query1-%d" % i, H, ["query", 1, i, 8], weight=3))
+    for i in range(2):
+        jobs.append(Job("alpha4-short-%d" % i, H, ["alpha", 4, 8, 4, i, 2], weight=2))     # multi-block inputs: lengths 4..8 over {00,ff,a,%}
     if tier == "thorough":
         for i in range(8):
             jobs.append(Job("alpha40-%d" % i, H, ["alpha", 4, 4, 40, i, 8], weight=3))
